@@ -236,7 +236,11 @@ def run_config(cfg, res):
     if len(queued) >= 2:
       # the next daemon's flow control pauses its listeners while one of these segments is being read
       sessions.append((r.choice(segmentations), r.randrange(1, len(queued) + 1)))
-    for segs, pause_at in sessions:
+    # the next daemon has a configuration of its own: its MAX_DATAPOINTS_PER_MESSAGE (which governs what *it* sends) need not
+    # be the relay's
+    own = settings['MAX_DATAPOINTS_PER_MESSAGE']
+    for si, (segs, pause_at) in enumerate(sessions):
+      settings['MAX_DATAPOINTS_PER_MESSAGE'] = own if (case + si) % 2 == 0 else r.choice([1, 2, max(1, batch // 3), 7, 500, batch * 2])
       if pause_at is None:
         o = proto.tcp_session(listener, segs, rec)
       else:
@@ -272,7 +276,8 @@ def run_config(cfg, res):
             bad = ('value', 'queued value %r ingested as %r (delta %r)' % (qv, gv, gv - float(qv) if not math.isinf(gv) else None))
             break
       if bad:
-        res.violation('%s/%s' % (cfg['proto'], bad[0]), bad[1] + ' (batch %d)' % batch, wit)
+        res.violation('%s/%s' % (cfg['proto'], bad[0]), bad[1] + ' (batch %d, the listening daemon has MAX_DATAPOINTS_PER_MESSAGE = %s)' % (
+          batch, settings['MAX_DATAPOINTS_PER_MESSAGE']), wit)
         break
     res.case(dict(p=cfg['proto'], b=batch, q=repr(queued)), nontrivial=n >= 2)
     res.sample(dict(proto=cfg['proto'], batch=batch, n=n, first=[repr(q) for q in queued[:2]], wire=data[:80].decode('latin1')), cap=2)
